@@ -913,7 +913,8 @@ class Interp:
         if e.value is Ellipsis:
             return NONE
         if isinstance(e.value, bytes):
-            return fresh("bytes")
+            # a bytes literal: an opaque object determined by its content (equal literals are equal values)
+            return V.obj(z3.Function("BytesLiteral", z3.StringSort(), I)(z3.StringVal(e.value.decode("latin-1"))))
         return self.lift(e.value)
 
     def e_Name(self, e, env):
